@@ -110,3 +110,66 @@ Proof.
       rewrite E. cbn [rev seq map]. rewrite <- app_assoc. cbn [app]. rewrite N.add_0_r.
       do 2 f_equal. rewrite <- seq_shift, map_map. apply map_ext. intros d. lia.
 Qed.
+
+(* ------------------------------------------------------------------------------------------------
+   Tie of the acceptor to the model's step function: a worker that stands at the loop head of
+   do_work_chunk ([BRun off idx i e], e = i + fuel, no wrap-around: e < 2^bits) and takes
+   2 * (number of calls predicted by [chunk_calls]) of its own steps has entered f exactly that many
+   times, for exactly the indices i, i+1, ..., and stands at the exception exchange with the first
+   throwing index iff [chunk_calls] reports a throw, else back at the loop head with i = e. *)
+Lemma chunk_calls_acc throws : forall fuel i acc,
+  chunk_calls throws i fuel acc =
+    (acc + fst (chunk_calls throws i fuel 0), snd (chunk_calls throws i fuel 0)).
+Proof.
+  induction fuel as [|f IH]; intros i acc; cbn [chunk_calls].
+  - cbn [fst snd]. f_equal. lia.
+  - destruct (throws i); cbn [fst snd].
+    + reflexivity.
+    + rewrite (IH (i + 1) (acc + 1)), (IH (i + 1) (0 + 1)). cbn [fst snd]. f_equal. lia.
+Qed.
+
+Fixpoint solo (cf : cfg) (t : nat) (n : nat) (c : bshared * bpc) : bshared * bpc :=
+  match n with
+  | O => c
+  | S m => solo cf t m (bstep cf false t (fst c) (snd c))
+  end.
+
+Lemma solo_chunk cf t off idx : forall fuel i e g,
+  e = i + N.of_nat fuel -> e < 2 ^ cbits cf ->
+  let r := chunk_calls (cthrows cf) i fuel 0 in
+  let k := N.to_nat (fst r) in
+  let c' := solo cf t (2 * k) (g, BRun off idx i e) in
+  map fst (calls (fst c')) = rev (map (fun d => i + N.of_nat d) (seq 0 k)) ++ map fst (calls g) /\
+  snd c' = (if snd r then BExch (i + fst r - 1) else BRun off idx e e) /\
+  sigs (fst c') = sigs g /\ remaining (fst c') = remaining g /\ queues (fst c') = queues g.
+Proof.
+  induction fuel as [|f IH]; intros i e g He Hlt.
+  - cbn. replace e with i by (cbn in He; lia). auto.
+  - cbn zeta. cbn [chunk_calls]. destruct (cthrows cf i) eqn:Hthr.
+    + (* f(i) throws: one call, then the exchange *)
+      cbn [fst snd]. change (N.to_nat (0 + 1)) with 1%nat. cbn [Nat.mul Nat.add solo fst snd bstep].
+      assert (Hie : (i <? e) = true) by (apply N.ltb_lt; lia). rewrite Hie. cbn [fst snd bstep].
+      rewrite Hthr. cbn [fst snd calls sigs remaining queues seq map rev app].
+      rewrite N.add_0_r. replace (i + (0 + 1) - 1) with i by lia. auto.
+    + (* f(i) returns: two steps, then the rest of the chunk from i + 1 *)
+      rewrite chunk_calls_acc. cbn [fst snd].
+      set (r := chunk_calls (cthrows cf) (i + 1) f 0) in *.
+      replace (N.to_nat (0 + 1 + fst r)) with (S (N.to_nat (fst r))) by lia.
+      replace (2 * S (N.to_nat (fst r)))%nat with (S (S (2 * N.to_nat (fst r)))) by lia.
+      cbn [solo fst snd bstep].
+      assert (Hie : (i <? e) = true) by (apply N.ltb_lt; lia). rewrite Hie. cbn [fst snd bstep].
+      rewrite Hthr.
+      assert (Hw : wrap (cbits cf) (i + 1) = i + 1) by (unfold wrap; apply N.mod_small; lia).
+      rewrite Hw.
+      match goal with |- context [solo cf t _ (?g1, BRun off idx (i + 1) e)] =>
+        destruct (IH (i + 1) e g1 ltac:(lia) Hlt) as [H1 [H2 [H3 [H4 H5]]]] end.
+      fold r in H1, H2. cbn [fst] in H1, H2, H3, H4, H5 |- *.
+      split; [|split; [|split; [|split]]].
+      * rewrite H1. cbn [calls map fst seq rev]. rewrite N.add_0_r.
+        rewrite <- seq_shift, map_map, <- app_assoc. cbn [app]. f_equal.
+        f_equal. apply map_ext. intros d. lia.
+      * rewrite H2. destruct (snd r); [|reflexivity]. f_equal. lia.
+      * exact H3.
+      * exact H4.
+      * exact H5.
+Qed.
